@@ -1,9 +1,9 @@
 #!/bin/bash
-# re-run every seed against the check of the property it targets (and nothing else); prints one line per seed
+# re-run every seed against the check of the property it targets (and nothing else); prints one line per seed.
+# PAR=<n> (default 4) seeds at a time, each in a private copy of /verif against a scratch worktree (SEED_ISOLATED).
 cd "$(dirname "$0")/.."
-for d in seeded/*/; do
-  sid=$(basename $d)
-  prop=$(python3 -c "import json;print(json.load(open('$d/meta.json'))['breaks'])")
-  out=$(python3 tools/run_seeds.py $sid $prop 2>&1 | grep -E "^$prop exit" | cut -c1-110)
-  echo "$sid: $out"
-done
+ls -d seeded/C*-*/ | xargs -P ${PAR:-4} -I{} sh -c '
+  d={}; sid=$(basename $d)
+  prop=$(python3 -c "import json;print(json.load(open(\"$d/meta.json\"))[\"breaks\"])")
+  out=$(SEED_ISOLATED=1 python3 tools/run_seeds.py $sid $prop 2>&1 | grep -E "^$prop exit" | cut -c1-110)
+  echo "$sid: $out"'
